@@ -173,6 +173,7 @@ func c13One(t *testing.T, c *vcore.Ctx, b *world.Backend, opts world.InstanceOpt
 	var problems []string
 	sawMarker := false
 	nObs := 0
+	maxStatus := map[string]int{} // highest count observed per node while the deployment ran
 	var obsStore store.Store
 	var obsClose func()
 	observe := func(where string) {
@@ -201,6 +202,9 @@ func c13One(t *testing.T, c *vcore.Ctx, b *world.Backend, opts world.InstanceOpt
 		nodes := map[string]bool{}
 		for n := range status {
 			nodes[n] = true
+			if status[n] > maxStatus[n] {
+				maxStatus[n] = status[n]
+			}
 		}
 		for n := range prior {
 			nodes[n] = true
@@ -259,6 +263,30 @@ func c13One(t *testing.T, c *vcore.Ctx, b *world.Backend, opts world.InstanceOpt
 	for _, p := range problems {
 		i := strings.Index(p, "|")
 		viol(p[:i], p[i+1:])
+	}
+	// the number planned per node, taken from the result stream (one message per planned instance, each naming
+	// its node) instead of from the marker itself: a marker created too large must not justify itself
+	if res.Err == "" && len(res.Items) > 0 {
+		plannedMsgs, complete := map[string]int{}, true
+		for _, it := range res.Items {
+			if it.Node == "" {
+				complete = false
+				break
+			}
+			plannedMsgs[it.Node]++
+		}
+		if complete {
+			var ns []string
+			for n := range maxStatus {
+				ns = append(ns, n)
+			}
+			sort.Strings(ns)
+			for _, n := range ns {
+				if maxStatus[n] > prior[n]+plannedMsgs[n] {
+					viol("count-above-prior-plus-planned", fmt.Sprintf("node %s: the count reached %d while the deployment ran; prior %d + %d instance(s) reported for that node", n, maxStatus[n], prior[n], plannedMsgs[n]))
+				}
+			}
+		}
 	}
 	// after return: count = recorded workloads, no marker of this deployment left
 	status, recorded, markers := deployStatus(b, redis)
